@@ -635,6 +635,61 @@ impl Check for C01Check {
     }
 }
 
+/// Calling context "thread teardown": the decoders are first used normally on a fresh thread and
+/// then once more from the destructor of a thread-local object of the CALLER that was created
+/// before that first use - i.e. after every thread-local the library itself may have created
+/// on that thread has already been destroyed. Nothing in the property restricts where a decoder
+/// may be called from. Returns the panic message of the late call, if any.
+fn decode_during_thread_teardown(chunk_list: Vec<Vec<u8>>, adc: Vec<u8>, trg: Vec<u8>, fifo: Vec<u8>) -> Option<String> {
+    use std::sync::{Arc, Mutex};
+    struct Late {
+        run: Option<Box<dyn FnOnce() + Send>>,
+    }
+    impl Drop for Late {
+        fn drop(&mut self) {
+            if let Some(f) = self.run.take() {
+                f();
+            }
+        }
+    }
+    thread_local! {
+        static LATE: std::cell::RefCell<Option<Late>> = const { std::cell::RefCell::new(None) };
+    }
+    let result: Arc<Mutex<Option<String>>> = Arc::new(Mutex::new(None));
+    let decode_all = {
+        let (chunk_list, adc, trg, fifo) = (chunk_list.clone(), adc.clone(), trg.clone(), fifo.clone());
+        move || {
+            let list: Vec<Chunk> = chunk_list.iter().filter_map(|d| Chunk::try_from(&d[..]).ok()).collect();
+            let _ = PwbPacket::try_from(list.clone()).map(|p| format!("{p}"));
+            let _ = PwbV2Packet::try_from(list);
+            let _ = AdcPacket::try_from(&adc[..]).map(|p| format!("{p}"));
+            let _ = TrgPacket::try_from(&trg[..]).map(|p| format!("{p:?}"));
+            let mut s: &[u8] = &fifo[..];
+            let _ = chronobox_fifo(&mut s);
+            let _ = mid::MainEventBankName::try_from("C09A");
+        }
+    };
+    let late = {
+        let result = result.clone();
+        let decode_all = decode_all.clone();
+        move || {
+            if let Err(p) = catch(decode_all) {
+                *result.lock().unwrap() = Some(p);
+            }
+        }
+    };
+    let t = std::thread::Builder::new().stack_size(2 << 20).spawn(move || {
+        // the caller's thread-local first ...
+        LATE.with(|l| *l.borrow_mut() = Some(Late { run: Some(Box::new(late)) }));
+        // ... then ordinary use (whatever the library keeps per thread is created now, i.e. later,
+        // and is therefore destroyed earlier)
+        let _ = catch(decode_all);
+    });
+    let _ = t.map(|h| h.join());
+    let r = result.lock().unwrap().take();
+    r
+}
+
 fn run_on_caller_stack(scenario: &Value, stats: &mut Stats) -> Outcome {
         let scn: Scn = serde_json::from_value(scenario.clone()).expect("C01 scenario");
         let have_checks = cfg!(debug_assertions);
@@ -774,6 +829,21 @@ fn run_on_caller_stack(scenario: &Value, stats: &mut Stats) -> Outcome {
             Family::Chunks => {
                 cx.chunks(&[]);
                 let nb = boards::pwb_boards().len();
+                {
+                    // every decoder once more from a thread-local destructor of the caller
+                    let g = PwbGen { board: r.usize(0, nb - 1), chip: r.below(4) as u8, channels: vec![4, 5, 6], requested_samples: 12, sample_seed: r.next_u64(), kind: "valid".into() };
+                    let payload = g.payload();
+                    let board = &boards::pwb_boards()[g.board];
+                    let list: Vec<Vec<u8>> = chunk_message(board.device_id, g.chip, 1, 1, &payload, payload.len().div_ceil(3).max(1)).iter().map(|c| c.encode()).collect();
+                    let adc = adc_bases(&mut r).first().map(|b| b.encode()).unwrap_or_default();
+                    let trg = TrgSpec::simple(r.next_u32(), r.next_u32() >> 4).encode();
+                    let fifo = encode_elems(&[Elem::Ts { ch: 1, t24: 2 }, Elem::Scaler { seed: 3 }, Elem::Marker { top: false, counter: 0 }]);
+                    cx.calls += 1;
+                    cx.stats.probe("decoders_called_during_thread_teardown");
+                    if let Some(p) = decode_during_thread_teardown(list, adc, trg, fifo) {
+                        cx.report("teardown", vec![], p);
+                    }
+                }
                 {
                     // the end of the 16-bit chunk-id range: a full-size packet cut into 65535 one-byte
                     // chunks and a last chunk (all 65536 ids in use); also one id short of that and with
